@@ -11,7 +11,7 @@ theorem upLoop_pinv (fuel : Nat) (h : Array Elem) (ns : Array Node) (key : Nat) 
     PInv (upLoop fuel h ns key w).1 (upLoop fuel h ns key w).2.1 (upLoop fuel h ns key w).2.2 r x lo ∧
     Frame ns (upLoop fuel h ns key w).2.1 ∧ gt (upLoop fuel h ns key w).1 0 = gt h 0 := by
   induction fuel generalizing h ns key with
-  | zero => simp only [upLoop]; exact ⟨P, Frame.refl _, rfl⟩
+  | zero => simp only [upLoop]; exact ⟨P, Frame.refl _, trivial⟩
   | succ fuel ih =>
     simp only [upLoop]
     split
@@ -30,6 +30,33 @@ theorem upLoop_pinv (fuel : Nat) (h : Array Elem) (ns : Array Node) (key : Nat) 
       refine ⟨a, hm.2.trans b, ?_⟩
       rw [c, gt_st_ne _ _ _ _ (by omega)]
     · exact ⟨P, Frame.refl _, rfl⟩
+
+theorem upLoop_succ (fuel : Nat) (h : Array Elem) (ns : Array Node) (key : Nat) (w : Int) :
+    upLoop (fuel + 1) h ns key w =
+      if (gt h (key / 2)).weight > w then
+        upLoop fuel (st h key (gt h (key / 2)))
+          (setKey ns (gt (st h key (gt h (key / 2))) key).index key) (key / 2) w
+      else (h, ns, key) := rfl
+
+/-- the fuel `up_heap` passes (`key`) is sufficient: more fuel does not change the result, i.e. the
+loop always leaves through its guard (the sentinel stops it at the root at the latest) -/
+theorem upLoop_fuel (fuel : Nat) (h : Array Elem) (ns : Array Node) (key : Nat) (w : Int)
+    (hf : key ≤ fuel) (hs0 : (gt h 0).weight ≤ w) :
+    upLoop (fuel + 1) h ns key w = upLoop fuel h ns key w := by
+  induction fuel generalizing h ns key with
+  | zero =>
+    have : key = 0 := by omega
+    subst this
+    rw [upLoop_succ, if_neg (by simpa using hs0)]
+    rfl
+  | succ fuel ih =>
+    rw [upLoop_succ (fuel + 1) h ns key w, upLoop_succ fuel h ns key w]
+    split
+    · rename_i hgt
+      have hk : key ≠ 0 := by
+        intro e; subst e; simp at hgt; omega
+      exact ih _ _ _ (by omega) (by rw [gt_st_ne _ _ _ _ hk]; exact hs0)
+    · rfl
 
 theorem upHeap_heap (s : Heap) (key : Nat) :
     (upHeap s key).heap =
@@ -67,7 +94,7 @@ theorem upHeap_spec (s : Heap) (key x : Nat) (lo : Int)
     rw [(p2.2 _).2.1]; exact (P.back key h1 h2).2.2.2
   obtain ⟨c1, c2, c3, c4⟩ := p1.close (gt s.heap key).weight hw (hlo key h2)
   refine ⟨by simp [o1], ?_, c1, p2.trans c2, ?_, ?_⟩
-  · exact close_hole _ _ _ _ o2 o3 o4
+  · exact close_hole _ _ _ _ (by omega) o3 o4
   · intro k hk; exact c3 k (by omega)
   · rw [c4, p3]
 
